@@ -16,8 +16,15 @@ Shape C (lattice walk with edge laws) on the real classes:
   exactly the scalar-by-scalar values for the four dimensionless and the four dimensional getters;
 * the module-level evaluators are linear in the coefficient vector (all pairs of basis vectors,
   three scalar multiples) and equal the textbook basis functions, which extends the clauses from
-  the basis vectors to every coefficient vector.
+  the basis vectors to every coefficient vector;
+* call histories on freshly built objects (constructor / from_dict(to_dict()) / deepcopy): a getter on a
+  temperature buffer, one event out of HIST_EVENTS (the same buffer edited in place, the returned array
+  overwritten, the species' parameters re-assigned or edited in place, another species or a clone
+  evaluated in between, ...), a second getter on the *same* buffer object; every call is compared with
+  the textbook value for the buffer's content and the parameters at that moment, and the caller's
+  buffer and the species' parameters must be left as they were.
 """
+import copy
 import math
 import warnings
 
@@ -61,6 +68,7 @@ NCOEF = dict(nasa7=7, nasa9=9, shomate=8)
 QUANT = ['CpoR', 'HoRT', 'SoR', 'GoRT']
 DIMQ = [('get_Cp', 'J/mol/K'), ('get_H', 'kJ/mol'), ('get_S', 'cal/mol/K'), ('get_G', 'eV')]
 GETTERS = ['get_' + q for q in QUANT] + [g for g, _ in DIMQ]
+ARRAY_ORDERS = ['asc', 'desc', 'rep', 'shuf']
 ARRAY_LENGTHS = [1, 2, 3, 7, 50]
 ARRAY_LENGTHS_T = [1, 2, 3, 4, 7, 13, 25, 50]
 # every getter documents 'float or (N,) numpy.ndarray'; python lists are not documented anywhere, so they are
@@ -103,6 +111,25 @@ REALS = {
     'alternating': [1.0e2, -1.0e1, 1.0, -1.0e-1, 1.0e-3, -1.0e3, 1.0e2, -1.0e1],
 }
 COEF_NAMES = ['water', 'co2', 'adsorbate', 'alternating']
+# integer-typed parameters: python-int bounds and integer-dtype coefficient arrays (bounds sets 0, 1 and the gap
+# configuration consist of whole numbers); two vectors per family, alternated over the segments like the real sets
+INT_COEFS = {
+    'nasa7': ([3, -2, 1, -1, 1, -30000, 5], [4, 1, -1, 1, -1, -29000, -7]),
+    'nasa9': ([-40000, 600, 3, -2, 1, -1, 1, -30000, 5], [100000, -2400, 4, 1, -1, 1, -1, -29000, -7]),
+    'shomate': ([30, 7, -7, 3, 1, -251, 223, -242], [25, 55, -34, 8, -1, -404, 228, -394]),
+}
+INT_BOUNDS = (0, 1)
+
+# ---- call histories (see _check_hist)
+HIST_EVENTS = ['again', 'buf:all', 'buf:item', 'buf:reverse', 'res:clobber', 'par:assign', 'par:item',
+               'par:break', 'par:units', 'other:call', 'fresh:call', 'scalar:call', 'deepcopy:edit', 'dict:edit']
+HIST_MAKES = ['ctor', 'from_dict', 'deepcopy']
+HIST_DTYPES = ['float', 'int']
+HIST_COEF, HIST_COEF2 = ['real', 'water'], ['real', 'co2']
+CL_HIST = 'every call of a history gives the textbook value for the current temperatures and parameters'
+CL_INPUT = "the caller's temperature array is left unchanged"
+CL_ALIAS = "a returned array shares no memory with the caller's temperature array"
+CL_PARAMS = "evaluation leaves the species' parameters as they were set"
 
 PLANNED_TAGS = [
     'at:T_low', 'at:T_high', 'at:T_mid', 'at:T_mid-', 'at:T_mid+', 'at:boundary', 'at:boundary-', 'at:boundary+',
@@ -110,9 +137,11 @@ PLANNED_TAGS = [
     'nasa9:listing=asc', 'nasa9:listing=shuf', 'nasa9:listing=gap', 'nasa9:outside-refused:scalar',
     'nasa9:outside-refused:array', 'nasa9:gap-refused', 'nasa7:outside-warned', 'shomate:outside-warned',
     'array:len1', 'array:len2', 'array:len3', 'array:len7', 'array:len50', 'array:ndarray', 'array:int-dtype',
-    'array:asc', 'array:desc', 'array:rep', 'array:spans-segments', 'array:len1->bare-number',
+    'array:asc', 'array:desc', 'array:rep', 'array:shuf', 'array:spans-segments', 'array:len1->bare-number',
     'lin:nasa7', 'lin:nasa9', 'lin:shomate', 'edge:nasa7', 'edge:nasa9', 'edge:shomate',
-]
+    'T:np.int64', 'T:np.float64', 'coef:int-dtype', 'phase:G',
+    'hist:dtype=float', 'hist:dtype=int', 'hist:res-clobbered', 'hist:break-moved-an-element',
+] + ['hist:ev=' + e for e in HIST_EVENTS] + ['hist:make=' + m for m in HIST_MAKES]
 
 
 def _ratio(tier):
@@ -135,15 +164,15 @@ def shards(tier):
     out = []
     L = ARRAY_LENGTHS if tier == 'quick' else ARRAY_LENGTHS_T
     for b in range(4):
-        out.append(dict(kind='obj', fam='nasa7', b=b, ratio=r, lengths=L))
+        out.append(dict(kind='obj', fam='nasa7', b=b, ratio=r, lengths=L, hist=tier))
     for b in range(4):
         for n in (1, 2, 3, 4):
             for order in (['asc'] if n == 1 else ['asc', 'shuf']):
-                out.append(dict(kind='obj', fam='nasa9', b=b, n=n, order=order, ratio=r, lengths=L))
-    out.append(dict(kind='obj', fam='nasa9', b=-1, n=2, order='gap', ratio=r, lengths=L))   # a hole between the segments
+                out.append(dict(kind='obj', fam='nasa9', b=b, n=n, order=order, ratio=r, lengths=L, hist=tier))
+    out.append(dict(kind='obj', fam='nasa9', b=-1, n=2, order='gap', ratio=r, lengths=L, hist=tier))   # a hole between the segments
     for b in range(4):
         for u in (UNITS_Q if tier == 'quick' else UNITS_T):
-            out.append(dict(kind='obj', fam='shomate', b=b, units=u, ratio=r, lengths=L))
+            out.append(dict(kind='obj', fam='shomate', b=b, units=u, ratio=r, lengths=L, hist=tier))
     out.append(dict(kind='lin', fam='nasa7', units=[None], ratio=r))
     out.append(dict(kind='lin', fam='nasa9', units=[None], ratio=r))
     us = UNITS_Q if tier == 'quick' else UNITS_T
@@ -188,6 +217,14 @@ def _seg_coefs(cfg):
         # neighbouring segments get different basis vectors (and different multiples), so that the
         # value reveals which segment answered
         return [_unit(n, which + 3 * k, k + 1.0) for k in range(nseg)]
+    if kind == 'int':
+        lo, hi = INT_COEFS[fam]
+        out = []
+        for k in range(nseg):
+            v = list(lo if k % 2 == 0 else hi)
+            v[0 if fam != 'nasa9' else 2] += k // 2          # third and fourth segment differ from the first two
+            out.append(v)
+        return out
     if fam == 'shomate':
         return [list(REALS[which])]
     table = REAL7 if fam == 'nasa7' else REAL9
@@ -227,26 +264,38 @@ def _key(cfg):
     return key
 
 
+def _build(cfg, segs=None, coefs=None):
+    """A fresh object for the configuration (real constructor).  Integer configurations get python-int bounds
+    and integer-dtype coefficient arrays; 'phase' configurations are gas species (GasPressureAdj attached,
+    which contributes nothing at the default pressure)."""
+    from pmutt.empirical.nasa import Nasa, Nasa9, SingleNasa9
+    from pmutt.empirical.shomate import Shomate
+    segs = _segments(cfg) if segs is None else segs
+    coefs = _seg_coefs(cfg) if coefs is None else coefs
+    fam = cfg['fam']
+    if cfg['coef'][0] == 'int':
+        segs = [(int(lo), int(hi)) for lo, hi in segs]
+        if [tuple(map(float, x)) for x in segs] != [tuple(map(float, x)) for x in _segments(cfg)]:
+            raise core.HarnessError('integer configuration on non-integer bounds')
+    kw = {}
+    if cfg.get('phase'):
+        kw['phase'] = cfg['phase']
+    if fam == 'nasa7':
+        return Nasa(name='sp', T_low=segs[0][0], T_mid=segs[0][1], T_high=segs[1][1],
+                    a_low=np.array(coefs[0]), a_high=np.array(coefs[1]), **kw)
+    if fam == 'nasa9':
+        singles = [SingleNasa9(T_low=segs[k][0], T_high=segs[k][1], a=np.array(coefs[k]))
+                   for k in _listing(cfg)]
+        return Nasa9(name='sp', nasas=singles, **kw)
+    return Shomate(name='sp', T_low=segs[0][0], T_high=segs[0][1], a=np.array(coefs[0]),
+                   units=cfg['units'], **kw)
+
+
 def _obj(cfg):
     key = _key(cfg)
     o = _CACHE.get(key)
-    if o is not None:
-        return o
-    from pmutt.empirical.nasa import Nasa, Nasa9, SingleNasa9
-    from pmutt.empirical.shomate import Shomate
-    segs, coefs = _segments(cfg), _seg_coefs(cfg)
-    fam = cfg['fam']
-    if fam == 'nasa7':
-        o = Nasa(name='sp', T_low=segs[0][0], T_mid=segs[0][1], T_high=segs[1][1],
-                 a_low=np.array(coefs[0]), a_high=np.array(coefs[1]))
-    elif fam == 'nasa9':
-        singles = [SingleNasa9(T_low=segs[k][0], T_high=segs[k][1], a=np.array(coefs[k]))
-                   for k in _listing(cfg)]
-        o = Nasa9(name='sp', nasas=singles)
-    else:
-        o = Shomate(name='sp', T_low=segs[0][0], T_high=segs[0][1], a=np.array(coefs[0]),
-                    units=cfg['units'])
-    _CACHE[key] = o
+    if o is None:
+        o = _CACHE[key] = _build(cfg)
     return o
 
 
@@ -375,8 +424,9 @@ def _arrays(cfg, ratio, lengths=None):
         asc = sorted(base)
         half = asc[:(L + 1) // 2]
         rep = (half + half[::-1])[:L]
+        shuf = asc[1::2] + asc[0::2][::-1]                   # neither ascending nor descending from length 3 on
         seen = []
-        for order, arr in (('asc', asc), ('desc', asc[::-1]), ('rep', rep)):
+        for order, arr in (('asc', asc), ('desc', asc[::-1]), ('rep', rep), ('shuf', shuf)):
             if arr not in seen:
                 seen.append(arr)
                 out.append((order, arr))
@@ -415,6 +465,14 @@ def _check_point(case, ctx):
     ctx.tag('at:' + where)
     if isinstance(T, int):
         ctx.tag('T:int')
+    if case.get('np'):                                      # the same temperature as a numpy scalar
+        T = np.int64(T) if isinstance(T, int) else np.float64(T)
+        sig0['T'] = 'np.' + type(T).__name__
+        ctx.tag('T:' + sig0['T'])
+    if cfg['coef'][0] == 'int':
+        ctx.tag('coef:int-dtype')
+    if cfg.get('phase'):
+        ctx.tag('phase:' + cfg['phase'])
     obs = {}
     for q in QUANT:
         sig = dict(sig0, getter='get_' + q)
@@ -522,8 +580,10 @@ def _check_array(case, ctx):
     ctx.tag('array:' + order)
     if len({tuple(_candidates(cfg, T)[0]) for T in Ts}) > 1:
         ctx.tag('array:spans-segments')
+    before = arg.copy() if cont == 'ndarray' else list(arg)
     res = _call(o, getter, arg)
     ctx.evals(len(Ts) + 1)
+    ctx.true(CL_INPUT, _same_array(arg, before), sig, case, np.asarray(arg).tolist(), list(Ts))
     if len(Ts) == 1 and np.ndim(res) == 0:
         ctx.tag('array:len1->bare-number')
     if not ctx.true('an array of N temperatures gives N values', np.size(res) == len(Ts), sig, case,
@@ -531,6 +591,14 @@ def _check_array(case, ctx):
         return
     ctx.close('array evaluation = scalar-by-scalar evaluation', np.ravel(np.asarray(res, dtype=float)),
               each, sig, case, rtol=1e-12, atol=0.0, scale=np.abs(each) + _array_scale(cfg, Ts, getter))
+
+
+def _same_array(a, b):
+    if isinstance(a, np.ndarray) != isinstance(b, np.ndarray):
+        return False
+    if isinstance(a, np.ndarray):
+        return a.dtype == b.dtype and a.shape == b.shape and bool(np.all(a == b))
+    return type(a) is type(b) and len(a) == len(b) and all(type(x) is type(y) and x == y for x, y in zip(a, b))
 
 
 def _array_scale(cfg, Ts, getter):
@@ -546,6 +614,266 @@ def _array_scale(cfg, Ts, getter):
                 s *= c.R(u if g in ('get_Cp', 'get_S') else u + '/K') * (T if g in ('get_H', 'get_G') else 1.0)
         out.append(s)
     return np.array(out)
+
+
+# ----------------------------------------------------------------------------- call histories
+class _Params:
+    """What the species' parameters are *meant* to be at this point of a history (harness-side model)."""
+
+    def __init__(self, cfg):
+        self.fam = cfg['fam']
+        self.segs = [list(x) for x in _segments(cfg)]
+        self.coefs = [list(map(float, v)) for v in _seg_coefs(cfg)]
+        self.units = cfg.get('units')
+        self.listing = _listing(cfg)
+        self.break0 = self.segs[0][1]
+
+    def R(self):
+        if self.fam != 'shomate':
+            return None
+        from pmutt import constants as c
+        return c.R(self.units)
+
+
+def _hist_events(cfg):
+    nseg = len(_segments(cfg))
+    return [e for e in HIST_EVENTS
+            if not (e == 'par:break' and nseg < 2) and not (e == 'par:units' and cfg['fam'] != 'shomate')]
+
+
+def _hist_temps(cfg, dtype):
+    """(base, alt): three temperatures each, inside the range, not monotone.  With two or more segments
+    base = [second segment, first segment, the break point between them]; alt replaces every element."""
+    segs = _segments(cfg)
+    if dtype == 'int':
+        ints = _int_points(cfg)
+        t0, t1 = ints[0], ints[-1]
+        base, alt = [t1, t0, t0 + 1], [t1 - 1, t0 - 1, t1 + 1]
+    elif len(segs) > 1:
+        (lo0, hi0), (lo1, hi1) = segs[0], segs[1]
+        base = [lo1 + 0.5 * (hi1 - lo1), lo0 + 0.5 * (hi0 - lo0), lo1]
+        alt = [lo1 + 0.25 * (hi1 - lo1), lo0 + 0.25 * (hi0 - lo0), _up(lo1)]
+    else:
+        lo0, hi0 = segs[0]
+        base = [lo0 + 0.5 * (hi0 - lo0), lo0, hi0]
+        alt = [lo0 + 0.25 * (hi0 - lo0), _up(lo0), _dn(hi0)]
+    for T in base + alt:
+        if not _candidates(cfg, T)[0]:
+            raise core.HarnessError('history temperature %r outside the range of %s' % (T, _key(cfg)))
+    if len(set(base)) < 2 or base == alt:
+        raise core.HarnessError('degenerate history buffer for %s' % _key(cfg))
+    return base, alt
+
+
+def _hist_make(cfg, make):
+    o = _build(cfg)
+    if make == 'from_dict':
+        return type(o).from_dict(o.to_dict())
+    if make == 'deepcopy':
+        return copy.deepcopy(o)
+    return o
+
+
+def _clone(o, how):
+    return copy.deepcopy(o) if how == 'deepcopy' else type(o).from_dict(o.to_dict())
+
+
+def _assign_params(o, st, new):
+    """Give the species new coefficient vectors by attribute assignment (fresh arrays)."""
+    from pmutt.empirical.nasa import SingleNasa9
+    st.coefs = [list(map(float, v)) for v in new]
+    if st.fam == 'nasa7':
+        o.a_low, o.a_high = np.array(st.coefs[0]), np.array(st.coefs[1])
+    elif st.fam == 'nasa9':
+        o.nasas = [SingleNasa9(T_low=st.segs[k][0], T_high=st.segs[k][1], a=np.array(st.coefs[k]))
+                   for k in st.listing]
+    else:
+        o.a = np.array(st.coefs[0])
+
+
+def _other_coefs(cfg, st):
+    """A different coefficient set: the one of HIST_COEF2, or (when that is the current one) 1.25 x the original."""
+    new = _seg_coefs(dict(cfg, coef=HIST_COEF2))
+    if [list(map(float, v)) for v in new] == st.coefs:
+        new = [[1.25 * x for x in v] for v in _seg_coefs(cfg)]
+    return new
+
+
+def _hist_expect(st, getter, Ts, obs):
+    """Textbook values (and round-off scales) for the parameters st at the temperatures Ts, in the getter's unit;
+    on a shared NASA-9 boundary the neighbour closer to the observed value is the expectation."""
+    from pmutt import constants as c
+    q = {'get_Cp': 'CpoR', 'get_H': 'HoRT', 'get_S': 'SoR', 'get_G': 'GoRT'}.get(getter, getter[4:])
+    unit = dict(DIMQ).get(getter)
+    R = st.R()
+    exp, scale = [], []
+    for i, T in enumerate(Ts):
+        f = 1.0
+        if unit is not None:
+            f = c.R(unit if getter in ('get_Cp', 'get_S') else unit + '/K') * (float(T) if getter in ('get_H', 'get_G') else 1.0)
+        cands = [ref.values(ref.terms_for(st.fam, st.coefs[k], T, R))[q] for k in ref.containing(st.fam, st.segs, T)]
+        if not cands:
+            raise core.HarnessError('history temperature %r outside every segment' % (T,))
+        v, sc = min(cands, key=lambda r: abs(r[0] * f - obs[i]) if i < len(obs) else 0.0)
+        exp.append(v * f)
+        scale.append(sc * abs(f))
+    return exp, scale
+
+
+def _hist_call(ctx, case, o, st, getter, arg, sig, buf=None):
+    """One judged getter call.  arg: the buffer itself, a fresh array or a scalar."""
+    is_arr = isinstance(arg, np.ndarray)
+    Ts = arg.tolist() if is_arr else [arg]
+    before = arg.copy() if is_arr else arg
+    res = _call(o, getter, arg)
+    ctx.evals()
+    ctx.trans()
+    if is_arr:
+        ctx.true(CL_INPUT, _same_array(arg, before), sig, case, arg.tolist(), Ts)
+        for x in ([arg] if buf is None or buf is arg else [arg, buf]):
+            ctx.true(CL_ALIAS, not (isinstance(res, np.ndarray) and np.shares_memory(res, x)), sig, case)
+    if not ctx.true('an array of N temperatures gives N values' if is_arr else 'a single temperature gives a single number',
+                    np.size(res) == len(Ts), sig, case, list(np.shape(res)), len(Ts)):
+        return None
+    obs = np.ravel(np.asarray(res, dtype=float))
+    exp, scale = _hist_expect(st, getter, Ts, obs)
+    ctx.close(CL_HIST, obs, exp, sig, case, rtol=1e-9, atol=0.0, scale=scale)
+    return res
+
+
+def _params_now(o, st):
+    """(observed, expected) parameters of the species, as plain lists."""
+    if st.fam == 'nasa7':
+        obs = [[float(o.T_low), float(np.ravel(o.T_mid)[0])], [float(np.ravel(o.T_mid)[0]), float(o.T_high)]], \
+              [np.asarray(o.a_low, dtype=float).tolist(), np.asarray(o.a_high, dtype=float).tolist()]
+        return obs, (st.segs, st.coefs)
+    if st.fam == 'nasa9':
+        singles = list(o.nasas)
+        by_seg = sorted(range(len(singles)), key=lambda j: st.listing[j])
+        obs = [[float(singles[j].T_low), float(singles[j].T_high)] for j in by_seg], \
+              [np.asarray(singles[j].a, dtype=float).tolist() for j in by_seg]
+        return obs, (st.segs, st.coefs)
+    return ([[float(o.T_low), float(o.T_high)]], [np.asarray(o.a, dtype=float).tolist()], o.units), \
+           (st.segs, st.coefs, st.units)
+
+
+def _check_hist(case, ctx):
+    """seq = [getter, event, getter, (event, getter ...)]: the getters are called on ONE buffer object."""
+    cfg, make, dtype, seq = case['obj'], case['make'], case['dtype'], case['seq']
+    cls = _clsname(cfg)
+    base, alt = _hist_temps(cfg, dtype)
+    np_dtype = np.int64 if dtype == 'int' else np.float64
+    o, st = _hist_make(cfg, make), _Params(cfg)
+    B = np.array(base, dtype=np_dtype)
+    others = {}
+    ctx.tag('hist:make=' + make)
+    ctx.tag('hist:dtype=' + dtype)
+    sigT = 'ndarray' + (':int' if dtype == 'int' else '')
+    last, after = None, 'start'
+    for step, item in enumerate(seq):
+        if step % 2 == 0:
+            sig = {'cls': cls, 'getter': item, 'T': sigT, 'after': after, 'make': make, 'on': 'self'}
+            last = _hist_call(ctx, case, o, st, item, B, sig)
+            continue
+        ev, after = item, item
+        g = seq[step - 1]
+        ctx.tag('hist:ev=' + ev)
+        ctx.trans()
+        sig = {'cls': cls, 'getter': g, 'T': sigT, 'after': after, 'make': make}
+        if ev == 'again':
+            pass
+        elif ev == 'buf:all':                         # every element replaced, in place
+            B[:] = alt if B[0] == base[0] else base
+        elif ev == 'buf:item':                        # one element moved into the other segment, in place
+            B[1] = alt[0] if B[1] != alt[0] else base[1]
+        elif ev == 'buf:reverse':
+            B[:] = B[::-1].copy()
+        elif ev == 'res:clobber':                     # the caller reuses the array it was handed
+            if isinstance(last, np.ndarray) and last.flags.writeable:
+                last[...] = -12345.678
+                ctx.tag('hist:res-clobbered')
+        elif ev == 'par:assign':
+            _assign_params(o, st, _other_coefs(cfg, st))
+        elif ev == 'par:item':                        # coefficient arrays edited in place
+            j = 2 if st.fam == 'nasa9' else 0
+            if st.fam == 'nasa7':
+                o.a_low[j] += 1.0
+                o.a_high[j] += 1.0
+            elif st.fam == 'nasa9':
+                for single in o.nasas:
+                    single.a[j] += 1.0
+            else:
+                o.a[j] += 10.0
+            for v in st.coefs:
+                v[j] += 10.0 if st.fam == 'shomate' else 1.0
+        elif ev == 'par:break':                       # the first break point moves up past base[0] (or back)
+            lo1, hi1 = _segments(cfg)[1]
+            nb = lo1 + 0.75 * (hi1 - lo1) if st.segs[0][1] == st.break0 else st.break0
+            moved = [T for T in B.tolist() if (T < nb) != (T < st.segs[0][1])]
+            if moved:
+                ctx.tag('hist:break-moved-an-element')
+            st.segs[0][1] = st.segs[1][0] = nb
+            if st.fam == 'nasa7':
+                o.T_mid = nb
+            else:
+                o.nasas[st.listing.index(0)].T_high = nb
+                o.nasas[st.listing.index(1)].T_low = nb
+        elif ev == 'par:units':
+            st.units = UNITS_Q[(UNITS_Q.index(st.units) + 1) % len(UNITS_Q)] if st.units in UNITS_Q else UNITS_Q[0]
+            o.units = st.units
+        elif ev == 'other:call':                      # another species (other coefficients) evaluates the same buffer
+            if 'other' not in others:
+                cfg2 = dict(cfg, coef=HIST_COEF2)
+                others['other'] = (_build(cfg2), _Params(cfg2))
+            o2, st2 = others['other']
+            _hist_call(ctx, case, o2, st2, g, B, dict(sig, on='other'))
+        elif ev == 'fresh:call':                      # the same species evaluates another array in between
+            other = alt if B[0] == base[0] else base
+            _hist_call(ctx, case, o, st, g, np.array(other, dtype=np_dtype), dict(sig, on='self'), buf=B)
+        elif ev == 'scalar:call':
+            _hist_call(ctx, case, o, st, g, B.tolist()[0], dict(sig, T='int' if dtype == 'int' else 'scalar', on='self'))
+        elif ev in ('deepcopy:edit', 'dict:edit'):    # a clone gets other coefficients and is evaluated
+            o3, st3 = _clone(o, ev.split(':')[0] if ev != 'dict:edit' else 'from_dict'), copy.deepcopy(st)
+            _assign_params(o3, st3, _other_coefs(cfg, st3))
+            _hist_call(ctx, case, o3, st3, g, B, dict(sig, on='clone'))
+        else:
+            raise core.HarnessError('unknown history event %r' % (ev,))
+    obs, exp = _params_now(o, st)
+    ctx.true(CL_PARAMS, obs == exp,
+             {'cls': cls, 'T': sigT, 'after': after, 'make': make, 'on': 'self'}, case, obs, exp)
+    for name, (o2, st2) in sorted(others.items()):
+        obs, exp = _params_now(o2, st2)
+        ctx.true(CL_PARAMS, obs == exp, {'cls': cls, 'T': sigT, 'after': after, 'make': make, 'on': name}, case, obs, exp)
+
+
+def _histories(cfg, tier):
+    """Every history of the tier for one object: (make, dtype, seq)."""
+    evs = _hist_events(cfg)
+    for make in HIST_MAKES:
+        for dtype in HIST_DTYPES:
+            full = tier == 'thorough' or (make == 'ctor' and dtype == 'float')
+            for g1 in GETTERS:
+                for ev in evs:
+                    for g2 in (GETTERS if full else [g1]):
+                        yield make, dtype, [g1, ev, g2]
+            if tier == 'thorough':                   # depth 3 on the diagonal
+                for g in GETTERS:
+                    for ev1 in evs:
+                        for ev2 in evs:
+                            yield make, dtype, [g, ev1, g, ev2, g]
+
+
+def _run_hist(shard, ctx):
+    cfg = _shard_cfg(shard, HIST_COEF)
+    for make, dtype, seq in _histories(cfg, shard.get('hist', 'quick')):
+        ctx.state(('hist', _key(cfg), make, dtype))
+        case = dict(kind='hist', obj=cfg, make=make, dtype=dtype, seq=seq)
+        ctx.run_case(check_case, case, {'cls': _clsname(cfg), 'getter': seq[0], 'after': seq[1], 'make': make,
+                                        'T': 'ndarray' + (':int' if dtype == 'int' else '')})
+        ctx.trace()
+        ctx.nontrivial(('hist', _key(cfg), make, dtype, '|'.join(seq)))
+        if seq[1] in ('buf:item', 'par:break') and seq[0] == 'get_HoRT':
+            ctx.sample(case, limit=2)
 
 
 # ------------------------------------------------------------------ module-level evaluators
@@ -620,7 +948,7 @@ def _check_modarray(case, ctx):
 
 
 CHECKS = dict(point=_check_point, edge=_check_edge, outside=_check_outside, array=_check_array,
-              lin=_check_lin, modarray=_check_modarray)
+              lin=_check_lin, modarray=_check_modarray, hist=_check_hist)
 
 
 def check_case(case, ctx):
@@ -628,17 +956,21 @@ def check_case(case, ctx):
 
 
 # ----------------------------------------------------------------------------- exploration
-def _configs(shard):
+def _shard_cfg(shard, coef, **extra):
     fam = shard['fam']
     if fam == 'nasa9':
-        for coef in _coef_ids(fam):
-            yield dict(fam=fam, b=shard['b'], n=shard['n'], order=shard['order'], coef=coef)
-    elif fam == 'nasa7':
-        for coef in _coef_ids(fam):
-            yield dict(fam=fam, b=shard['b'], coef=coef)
-    else:
-        for coef in _coef_ids(fam):
-            yield dict(fam=fam, b=shard['b'], units=shard['units'], coef=coef)
+        return dict(fam=fam, b=shard['b'], n=shard['n'], order=shard['order'], coef=coef, **extra)
+    if fam == 'nasa7':
+        return dict(fam=fam, b=shard['b'], coef=coef, **extra)
+    return dict(fam=fam, b=shard['b'], units=shard['units'], coef=coef, **extra)
+
+
+def _configs(shard):
+    for coef in _coef_ids(shard['fam']):
+        yield _shard_cfg(shard, coef)
+    if shard['b'] in INT_BOUNDS or shard.get('order') == 'gap':
+        yield _shard_cfg(shard, ['int', 0])                     # integer-typed bounds and coefficients
+    yield _shard_cfg(shard, HIST_COEF, phase='G')              # a gas species (a misc model is attached)
 
 
 def _run_obj_shard(shard, ctx):
@@ -659,6 +991,11 @@ def _run_obj_shard(shard, ctx):
                 ctx.nontrivial(('pt', _key(cfg), T))
             if where in ('T_mid', 'boundary'):
                 ctx.sample(case, limit=1)
+            if where != 'inside' or isinstance(T, int):
+                case = dict(kind='point', obj=cfg, T=T, np=True)
+                ctx.run_case(check_case, case, {'cls': cls, 'at': where,
+                                                'T': 'np.int64' if isinstance(T, int) else 'np.float64'})
+                ctx.nontrivial(('pt-np', _key(cfg), T))
         for T1, T2, k in edges:
             case = dict(kind='edge', obj=cfg, T1=T1, T2=T2, seg=k)
             ctx.run_case(check_case, case, {'cls': cls, 'T': 'scalar', 'at': 'edge'})
@@ -717,6 +1054,7 @@ def _run_lin_shard(shard, ctx):
 def run_shard(shard, ctx):
     if shard['kind'] == 'obj':
         _run_obj_shard(shard, ctx)
+        _run_hist(shard, ctx)
     else:
         _run_lin_shard(shard, ctx)
 
